@@ -14,7 +14,7 @@ of the module are evaluated on every state of the explaining behaviour, and time
 from vf.props import _family
 
 PROFILES = "errors".split(',')
-CFGS = "lim,nodoors".split(',')
+CFGS = "lim,nodoors,sub".split(',')
 NEGATIVES = dict(x.split(':') for x in "-".split(',') if ':' in x)
 FEATURES = set("retry,failure".split(','))
 
@@ -145,4 +145,6 @@ def run(ctx, rep) -> None:
     scs = []
     for p in PROFILES:
         scs += H.gen_scenarios(ctx.seed, n // len(PROFILES), p)
+    # a handler that registers two sub-handlers whenever it runs (Handling.tla with conf.subs: InvokeSub / ParentEnd)
+    scs += H.gen_scenarios(ctx.seed, 50 if ctx.quick else 1000, 'subs')
     _family.run_traces(rep, scs, '+'.join(PROFILES), nontrivial=lambda f: bool(f & FEATURES))
